@@ -1,7 +1,7 @@
 import Slock.Model.Aof
 /-!
 Reader lemmas for M-AOF: what one `bufio.Reader.Read` returns, `ReadLock` on a complete record (for EVERY buffer
-size and fill state), `ReadLock` at the end of the file, `ReadLock` on a torn tail (either "Lock Len error" or io.EOF), `ReadLockData` on a complete / cut value frame.
+size and fill state), `ReadLock` at the end of the file, `ReadLock` on a torn tail (io.EOF, wherever the refills fall), `ReadLockData` on a complete / cut value frame.
 -/
 namespace Slock.Aof
 
@@ -83,6 +83,33 @@ theorem read_drain (r : Rd) (k : Nat) (ha : 0 < r.avail) (hk : r.avail < k) :
   have hm : min k r.avail = r.avail := by omega
   simp [hk0, ha, hm]
 
+theorem readFull_ok : ∀ (f : Nat) (r : Rd) (k : Nat), r.Inv → k ≤ r.s.length → k ≤ f →
+    ∃ r', readFull f r k = some r' ∧ r'.s = r.s.drop k ∧ r'.cap = r.cap ∧ r'.Inv
+  | 0, r, k, hi, _, hf => by
+    have : k = 0 := by omega
+    subst this
+    exact ⟨r, by simp [readFull], by simp, rfl, hi⟩
+  | f + 1, r, k, hi, hk, hf => by
+    by_cases hk0 : k = 0
+    · subst hk0; exact ⟨r, by simp [readFull], by simp, rfl, hi⟩
+    · obtain ⟨m, r1, hr1, hm0, hmk, hms, hs1, hc1, hi1⟩ := read_some r k hi (by omega) (by omega)
+      obtain ⟨r2, hr2, hs2, hc2, hi2⟩ := readFull_ok f r1 (k - m) hi1 (by rw [hs1]; simp; omega) (by omega)
+      refine ⟨r2, ?_, ?_, by rw [hc2, hc1], hi2⟩
+      · simp [readFull, hk0, hr1, hr2]
+      · rw [hs2, hs1, List.drop_drop]; congr 1; omega
+
+theorem readFull_short : ∀ (f : Nat) (r : Rd) (k : Nat), r.Inv → r.s.length < k → readFull f r k = none
+  | 0, r, k, _, hk => by
+    have : ¬ k = 0 := by omega
+    simp [readFull, this]
+  | f + 1, r, k, hi, hk => by
+    have hk0 : ¬ k = 0 := by omega
+    by_cases hs : r.s.length = 0
+    · simp [readFull, hk0, read_none r k hi (by omega) hs]
+    · obtain ⟨m, r1, hr1, hm0, hmk, hms, hs1, hc1, hi1⟩ := read_some r k hi (by omega) (by omega)
+      have := readFull_short f r1 (k - m) hi1 (by rw [hs1]; simp; omega)
+      simp [readFull, hk0, hr1, this]
+
 /-! ### record buffers -/
 
 /-- A record as the writer emits it: 64 bytes starting with the length 62 (LE16). -/
@@ -125,11 +152,11 @@ theorem readLock_complete (r : Rd) (b tl : Bytes) (hi : r.Inv) (hb : WFBuf b) (h
   · have ha1 : 0 < r.avail := by omega
     have ha2 : r.avail < 64 := by omega
     have hr := read_drain r 64 ha1 ha2
-    -- second read: the rest of the record
+    -- second read (io.ReadFull): the rest of the record
     let r1 : Rd := { r with s := r.s.drop r.avail, avail := 0 }
     have hi1 : r1.Inv := by simp [Rd.Inv, r1]
     have hs1 : 64 - r.avail ≤ r1.s.length := by simp only [r1, List.length_drop]; omega
-    obtain ⟨r2, hr2, hs2, hc2, hi2⟩ := read_all r1 (64 - r.avail) hi1 (by omega) hs1 (Or.inl rfl)
+    obtain ⟨r2, hr2, hs2, hc2, hi2⟩ := readFull_ok (64 - r.avail) r1 (64 - r.avail) hi1 hs1 (Nat.le_refl _)
     refine ⟨r2, ?_, hc2, hi2, ?_⟩
     · rw [hs2]; simp only [r1, List.drop_drop]
       have : r.avail + (64 - r.avail) = 64 := by omega
@@ -149,9 +176,9 @@ theorem readLock_complete (r : Rd) (b tl : Bytes) (hi : r.Inv) (hb : WFBuf b) (h
       rw [hlen]
       have hne : ¬ r.avail = 62 + 2 := by omega
       simp only [hne, if_false]
-      change (match r1.read (64 - r.avail) with
+      change (match readFull (64 - r.avail) r1 (64 - r.avail) with
         | none => LockRes.eof _
-        | some (nn, r2) => _) = _
+        | some r2 => _) = _
       rw [hr2]
       simp only
       have hsum : r.avail + (64 - r.avail) = 62 + 2 := by omega
@@ -190,73 +217,26 @@ theorem le16_overlay_prefix (b old : Bytes) (m : Nat) (hb : WFBuf b) (ho : OldOK
   · obtain ⟨a', rfl⟩ : ∃ a', m = a' + 2 := ⟨m - 2, by omega⟩
     simp [le16_cons2]
 
-/-- `ReadLock` on a torn tail (`t` = the first `res` bytes of a record, 0 < res < 64, nothing after it): either
-"Lock Len error" (the tail straddles a buffer refill: the second read returns the few remaining bytes), or io.EOF — the same
-outcome as at a clean end of the file; only the reused buffer differs (its first `res` bytes were overwritten). Never success. -/
+/-- `ReadLock` on a torn tail (`t` = the first `res` bytes of a record, 0 < res < 64, nothing after it): io.EOF — the same
+outcome as at a clean end of the file, wherever the bufio refills fall (the rest is read with io.ReadFull). Never success,
+never an error. -/
 theorem readLock_torn (r : Rd) (b : Bytes) (res : Nat) (hi : r.Inv) (hb : WFBuf b)
     (h0 : 0 < res) (h64 : res < 64) (hs : r.s = b.take res) :
-    (∀ old, OldOK old → readLock r old = .lenErr) ∨
-    (∀ old, OldOK old → readLock r old = .eof (b.take res ++ old.drop res)) := by
+    ∀ old, OldOK old → ∃ buf', readLock r old = .eof buf' := by
   have hbl := hb.length
   have hsl : r.s.length = res := by rw [hs]; simp; omega
   obtain ⟨m, r1, hr1, hm0, hmk, hms, hs1, hc1, hi1⟩ := read_some r 64 hi (by omega) (by omega)
   have htk : r.s.take m = b.take m := by rw [hs, List.take_take]; congr 1; omega
   have hne : ¬ m = 62 + 2 := by omega
-  by_cases hfull : m = res
-  · right
-    have hs1' : r1.s.length = 0 := by rw [hs1]; simp; omega
-    intro old ho
-    have hlen : le16 (overlay old 0 (r.s.take m)) 0 = 62 := by rw [htk]; exact le16_overlay_prefix b old m hb ho hm0
-    unfold readLock
-    simp only [hr1, hlen, hne, if_false]
-    rw [read_none r1 (64 - m) hi1 (by omega) hs1']
-    simp only
-    congr 1
-    unfold overlay
-    rw [htk, hfull]
-    have : (b.take res).length = res := by simp; omega
-    simp [this]
-  · left
-    intro old ho
-    have hlen : le16 (overlay old 0 (r.s.take m)) 0 = 62 := by rw [htk]; exact le16_overlay_prefix b old m hb ho hm0
-    unfold readLock
-    simp only [hr1, hlen, hne, if_false]
-    have hs1' : 0 < r1.s.length := by rw [hs1]; simp; omega
-    obtain ⟨nn, r2, hr2, _, _, hnn, _, _, _⟩ := read_some r1 (64 - m) hi1 (by omega) hs1'
-    rw [hr2]
-    simp only
-    have : ¬ m + nn = 62 + 2 := by
-      rw [hs1] at hnn; simp at hnn; omega
-    simp [this]
+  intro old ho
+  have hlen : le16 (overlay old 0 (r.s.take m)) 0 = 62 := by rw [htk]; exact le16_overlay_prefix b old m hb ho hm0
+  unfold readLock
+  simp only [hr1, hlen, hne, if_false]
+  have hshort : r1.s.length < 64 - m := by rw [hs1]; simp; omega
+  rw [readFull_short (64 - m) r1 (64 - m) hi1 hshort]
+  exact ⟨_, rfl⟩
 
 /-! ### value frames -/
-
-theorem readFull_ok : ∀ (f : Nat) (r : Rd) (k : Nat), r.Inv → k ≤ r.s.length → k ≤ f →
-    ∃ r', readFull f r k = some r' ∧ r'.s = r.s.drop k ∧ r'.cap = r.cap ∧ r'.Inv
-  | 0, r, k, hi, _, hf => by
-    have : k = 0 := by omega
-    subst this
-    exact ⟨r, by simp [readFull], by simp, rfl, hi⟩
-  | f + 1, r, k, hi, hk, hf => by
-    by_cases hk0 : k = 0
-    · subst hk0; exact ⟨r, by simp [readFull], by simp, rfl, hi⟩
-    · obtain ⟨m, r1, hr1, hm0, hmk, hms, hs1, hc1, hi1⟩ := read_some r k hi (by omega) (by omega)
-      obtain ⟨r2, hr2, hs2, hc2, hi2⟩ := readFull_ok f r1 (k - m) hi1 (by rw [hs1]; simp; omega) (by omega)
-      refine ⟨r2, ?_, ?_, by rw [hc2, hc1], hi2⟩
-      · simp [readFull, hk0, hr1, hr2]
-      · rw [hs2, hs1, List.drop_drop]; congr 1; omega
-
-theorem readFull_short : ∀ (f : Nat) (r : Rd) (k : Nat), r.Inv → r.s.length < k → readFull f r k = none
-  | 0, r, k, _, hk => by
-    have : ¬ k = 0 := by omega
-    simp [readFull, this]
-  | f + 1, r, k, hi, hk => by
-    have hk0 : ¬ k = 0 := by omega
-    by_cases hs : r.s.length = 0
-    · simp [readFull, hk0, read_none r k hi (by omega) hs]
-    · obtain ⟨m, r1, hr1, hm0, hmk, hms, hs1, hc1, hi1⟩ := read_some r k hi (by omega) (by omega)
-      have := readFull_short f r1 (k - m) hi1 (by rw [hs1]; simp; omega)
-      simp [readFull, hk0, hr1, this]
 
 /-- A value frame as the writer emits it: 4-byte LE length, then that many bytes. -/
 def BlobWF (blob : Bytes) : Prop := ∃ lenb payload, blob = lenb ++ payload ∧ lenb.length = 4 ∧ leNat lenb = payload.length
